@@ -82,6 +82,41 @@ fn main() {
             out.flush().unwrap();
             continue;
         }
+        if p.len() >= 4 && (p[0] == "dtfmt" || p[0] == "dtparse") {
+            // dtfmt <s|ms|us|ns> <ts> <hex fmt | ->           ->  S <hex of strftime output> | PANIC <msg>
+            // dtparse <s|ms|us|ns> <hex fmt | -> <hex string>   ->  R <ts> | ERR | PANIC <msg>
+            use tevec::prelude::unit::*;
+            let unhex = |h: &str| -> String {
+                let b: Vec<u8> = (0..h.len() / 2).map(|i| u8::from_str_radix(&h[2 * i..2 * i + 2], 16).unwrap()).collect();
+                String::from_utf8(b).unwrap()
+            };
+            let cmd = p[0].to_string();
+            let u = p[1].to_string();
+            let r = std::panic::catch_unwind(move || {
+                macro_rules! run { ($U:ty) => {{
+                    if cmd == "dtfmt" {
+                        let ts: i64 = p[2].parse().unwrap();
+                        let f = if p[3] == "-" { None } else { Some(unhex(p[3])) };
+                        let txt = DateTime::<$U>::new(ts).strftime(f.as_deref());
+                        format!("S {}", txt.bytes().map(|b| format!("{:02x}", b)).collect::<String>())
+                    } else {
+                        let f = if p[2] == "-" { None } else { Some(unhex(p[2])) };
+                        let txt = if p.len() > 3 { unhex(p[3]) } else { String::new() };
+                        match DateTime::<$U>::parse(&txt, f.as_deref()) { Ok(d) => format!("R {}", d.0), Err(_) => "ERR".to_string() }
+                    }
+                }} }
+                match u.as_str() { "s" => run!(Second), "ms" => run!(Millisecond), "us" => run!(Microsecond), _ => run!(Nanosecond) }
+            });
+            match r {
+                Ok(x) => writeln!(out, "{}", x).unwrap(),
+                Err(e) => {
+                    let msg = e.downcast_ref::<String>().cloned().or_else(|| e.downcast_ref::<&str>().map(|s| s.to_string())).unwrap_or_default();
+                    writeln!(out, "PANIC {}", msg.replace('\n', " ")).unwrap()
+                },
+            }
+            out.flush().unwrap();
+            continue;
+        }
         if p.len() >= 4 && p[0] == "into_unit" {
             // into_unit <s|ms|us|ns> <s|ms|us|ns> <i64>  ->  R <i64> | PANIC <msg>
             use tevec::prelude::unit::*;
